@@ -337,6 +337,8 @@ class BuiltinMixin:
             st.assume(inv(j) == v.t)
         elif v.ty.name == "Dict":
             st.assume(z3.And(jv_is_dict(j), z3.Not(jv_is_str(j)), z3.Not(jv_is_list(j))))
+            inv = z3.Function("jv_to_Int", JVSort, I)
+            st.assume(inv(j) == v.t)
         else:
             st.assume(z3.And(z3.Not(jv_is_str(j)), z3.Not(jv_is_list(j)), z3.Not(jv_is_dict(j))))
             inv = z3.Function("jv_to_" + elem_sort_name(v.ty), JVSort, sort_of(v.ty))
@@ -653,6 +655,24 @@ class BuiltinMixin:
         for k in args[1:]:
             m = z3.Store(m, self.as_key(k), os_.none)
         return Val(d.ty, z3.IntVal(0), frozen=m)
+
+    def x_bi_jv_dict(self, args, kw, st, node):
+        """The dict stored as a JSON value."""
+        inv = z3.Function("jv_to_Int", JVSort, I)
+        return Val(DictT(JV), inv(args[0].t))
+
+    def x_bi_key_index(self, args, kw, st, node):
+        """Ghost: position of a key in the iteration order of the most recent iteration over this dict."""
+        d, k = args
+        info = st.ghost.get("g:keyiter:" + d.t.sexpr())
+        if info is None:
+            raise Unsupported("key_index: the dict was not iterated")
+        return Val(INT, info(self.as_key(k)))
+
+    def x_bi_same_value(self, args, kw, st, node):
+        """Identity of JSON values (the very same value, not merely Python-equal)."""
+        a, b = args
+        return Val(BOOL, a.t == b.t)
 
     def x_bi_jv_list(self, args, kw, st, node):
         """The list stored as a JSON value (inverse of the embedding used when it was stored)."""
